@@ -105,6 +105,22 @@ class AsyncRun:
         self.graph.warmup(self.gs0, jit_step=dict(spec.get("jit", {})), profile=False)
         self.trace.enabled = True
         self.trace.clear()
+        self.starts = {}
+        self.last_gs = None
+
+    def start_state(self, e):
+        """Initial graph state of episode e: gs0, or (spec['carry']) gs0 with the per-node rng / state / seq / ts the
+        previous episode ended with - the user keeps node state across episodes but re-initialises the input buffers."""
+        import jax
+
+        gs = self.gs0
+        last = getattr(self, "last_gs", None)
+        if e > 0 and self.spec.get("carry") and last is not None:
+            last = jax.tree_util.tree_map(lambda x: onp.asarray(x), last)
+            gs = gs.replace(rng=last.rng, state=last.state, seq=last.seq, ts=last.ts)
+        gs = gs.replace(eps=onp.int32(e))
+        self.starts[e] = gs
+        return gs
 
     def call(self, label, fn, *a, budget_s=20.0, **kw):
         return call_with_watchdog(self.graph, label, fn, *a, budget_s=budget_s, **kw)
@@ -115,6 +131,7 @@ class AsyncRun:
         for i in range(n_steps):
             gs = self.call(f"run#{i}", self.graph.run, gs, budget_s=budget_s)
             outs.append(to_np(gs.step_state[self.sup.name]))
+            self.last_gs = gs
         self.call("stop", self.graph.stop, budget_s=budget_s)
         return outs, to_np(self.graph.get_record())
 
@@ -130,6 +147,7 @@ class AsyncRun:
             else:
                 gs, ss = self.call(f"step#{i}", self.graph.step, gs, ov[0], ov[1], budget_s=budget_s)
             outs.append(to_np(ss))
+            self.last_gs = gs
         self.call("stop", self.graph.stop, budget_s=budget_s)
         return outs, to_np(self.graph.get_record())
 
